@@ -285,7 +285,7 @@ static inline void ctx_{prefix}_drop({ty} *self) {{
             }),
             (&container_ty, cont, container_wrappers.is_some()),
             (&context, ctx, context_wrappers.is_some()),
-            (&this_ty, &[]),
+            (&this_ty, &["vtbl"]),
             &mut generated_funcs,
             config,
         );
@@ -301,7 +301,23 @@ static inline void ctx_{prefix}_drop({ty} *self) {{
 
     // Create wrappers to group objects
 
+    // Vtable fields of each group object. Wrappers that return a new object (e.g. `clone`) must
+    // fill them in, because the vtable entry only returns the container.
+    let mut group_vtbl_fields: HashMap<(String, String), Vec<String>> = HashMap::new();
+
+    for (t, cont, second_half, _, _, _) in &group_vtbls {
+        group_vtbl_fields
+            .entry((cont.clone(), second_half.clone()))
+            .or_default()
+            .push(format!("vtbl_{}", t.to_lowercase()));
+    }
+
     for (t, cont, second_half, inner, context, funcs) in group_vtbls {
+        let vtbl_fields = group_vtbl_fields
+            .get(&(cont.clone(), second_half.clone()))
+            .map(|v| v.iter().map(String::as_str).collect::<Vec<_>>())
+            .unwrap_or_default();
+
         let this_ty = format!("struct {}_{}", cont, second_half);
         let container_ty = format!("struct {}Container_{}", cont, second_half);
 
@@ -332,7 +348,7 @@ static inline void ctx_{prefix}_drop({ty} *self) {{
             ("", &|_| Some(&cont)),
             (&container_ty, inner, container_wrappers.is_some()),
             (&context, ctx, context_wrappers.is_some()),
-            (&this_ty, &[]),
+            (&this_ty, &vtbl_fields),
             &mut generated_funcs,
             config,
         );
